@@ -10,6 +10,15 @@ frame: after a symbolic write to one side the other side's snapshot is unchanged
 Pickling is checked on the `__reduce__` recipes (callable(*args) [+ state],
 applied recursively; assumption A-pickle) in symbolic mode and additionally with
 the real pickle.dumps/loads in native mode.
+
+Round 2: (i) flows are also observed through the by-name accessors `imol[phase, ID]` / `imol[ID]` (`by_name_ok`: what a
+stream reports by name is what it holds for that chemical of its own package), after every operation and after writes,
+with histories in which either stream was read by name first; (ii) a later change may be made by a multi-phase stream's
+own equilibrium methods: symbolically the containers its vle/lle/sle objects are bound to must be the stream's own
+(`eq_own`, `eq_shared_roles`; assumption A-eq-writes: an equilibrium call writes only to the `imol` and
+`thermal_condition` of its object), with histories in which the objects were handed out before the operation; and the
+bounded group C13/equilibrium_after_history runs the real VLE solver after link/unlink/proxy/copy/pickle histories and
+compares every stream with the sharing model of C13/sequences.
 """
 import copy as _copy
 import itertools
@@ -307,13 +316,15 @@ def copy_configs(tier):
     return out
 
 
-@group('C13/copy', configs=copy_configs,
+@group('C13/copy', configs=copy_configs, assumptions=['A-eq-writes'],
        functions=['thermosteam._stream:Stream.copy', 'thermosteam._stream:Stream.__copy__',
                   'thermosteam.indexer:Indexer.copy', 'thermosteam.indexer:ChemicalIndexer._copy_without_data',
                   'thermosteam.indexer:MaterialIndexer._copy_without_data', 'thermosteam.indexer:ChemicalIndexer.reset_chemicals',
                   'thermosteam.indexer:MaterialIndexer.reset_chemicals',
                   'thermosteam._thermal_condition:ThermalCondition.copy', 'thermosteam._phase:Phase.copy',
-                  'thermosteam.base.sparse:SparseVector.copy', 'thermosteam.base.sparse:SparseArray.copy'])
+                  'thermosteam.base.sparse:SparseVector.copy', 'thermosteam.base.sparse:SparseArray.copy',
+                  'thermosteam.indexer:MaterialIndexer._set_cache', 'thermosteam.indexer:MaterialIndexer._get_index_data',
+                  'thermosteam._multi_stream:MultiStream.reset_cache'])
 def copy_(w, cfg):
     W.reset_caches()
     s = _mk(w, 's', cfg['kind'], 'A', 'pos+maybe')
@@ -380,6 +391,10 @@ def copy_like_configs(tier):
     if tier == 'thorough':
         out.append({'name': 't=SELF;s=l;pkg=AA;fill=pos+maybe', 't': 'SELF', 's': 'l', 'pkg': 'AA', 'fill': 'pos+maybe'})
         out.append({'name': 't=SELF;s=m:gl;pkg=AA;fill=pos+maybe', 't': 'SELF', 's': 'm:gl', 'pkg': 'AA', 'fill': 'pos+maybe'})
+    # histories: both streams were read by (phase, ID), and the equilibrium objects of the target handed out, before the call
+    # (a multi-phase target may get new phases, i.e. other rows, by the call)
+    out += [dict(c, name=c['name'] + ';read=before', read='before') for c in out
+            if _is_multi(c['t']) and c['fill'] == 'pos+maybe']
     return out
 
 
@@ -397,13 +412,15 @@ def _expected_flows(src, t_phases):
     return exp, sorted(set(missing))
 
 
-@group('C13/copy_like', configs=copy_like_configs,
+@group('C13/copy_like', configs=copy_like_configs, assumptions=['A-eq-writes'],
        functions=['thermosteam._stream:Stream.copy_like', 'thermosteam._multi_stream:MultiStream.copy_like',
                   'thermosteam.indexer:ChemicalIndexer.copy_like', 'thermosteam.indexer:MaterialIndexer.copy_like',
                   'thermosteam.indexer:MaterialIndexer._expand_phases', 'thermosteam.indexer:index_overlap',
                   'thermosteam._thermal_condition:ThermalCondition.copy_like', 'thermosteam._stream:Stream.phases',
                   'thermosteam._multi_stream:MultiStream.phases', 'thermosteam.base.sparse:SparseVector.copy_like',
-                  'thermosteam.base.sparse:SparseArray.copy_like'])
+                  'thermosteam.base.sparse:SparseArray.copy_like',
+                  'thermosteam.indexer:MaterialIndexer._set_cache', 'thermosteam.indexer:MaterialIndexer._get_index_data',
+                  'thermosteam._multi_stream:MultiStream.reset_cache'])
 def copy_like(w, cfg):
     W.reset_caches()
     pt, ps = cfg['pkg'][0], cfg['pkg'][1:]
@@ -411,6 +428,9 @@ def copy_like(w, cfg):
     t = s if cfg['t'] == 'SELF' else _mk(w, 't', cfg['t'], pt, 'pos+maybe')
     if _is_multi(cfg['t']):
         for ph in t.phases: t[ph]            # per-phase views exist before the call (they are cached by the stream)
+    if cfg.get('read') == 'before':
+        load_eq(t)
+        w.ensure('before the call: flows read by (phase, ID) are the flows of each stream', w.And(by_name_ok(w, t), by_name_ok(w, s)))
     pre = obs(s)
     try:
         t.copy_like(s)
@@ -537,7 +557,11 @@ def link_configs(tier):
         if not _is_multi(c['b']) or (c['a'] is not None and not _is_multi(c['a'])): continue
         if tier != 'thorough' and not (c['b'] == 'm:gl' and c['a'] in (None, 'm:gl')): continue
         loaded.append(dict(c, name=c['name'] + ';eq=loaded', eq='loaded'))
-    return out + loaded
+    # histories in which both streams were read by (phase, ID) before linking
+    read = [dict(c, name=c['name'] + ';read=before', read='before') for c in out
+            if c['a'] is not None and _is_multi(c['a']) and _is_multi(c['b']) and c['unlink'] == 'a'
+            and (tier == 'thorough' or tuple(c['flags']) in ((True, True, True), (True, False, False)))]
+    return out + loaded + read
 
 
 def _part(o, part, multi):
@@ -562,7 +586,7 @@ def _part_shared(a, b, part):
     return a.thermal_condition is b.thermal_condition
 
 
-@group('C13/link', configs=link_configs,
+@group('C13/link', configs=link_configs, assumptions=['A-eq-writes'],
        functions=['thermosteam._stream:Stream.link_with', 'thermosteam._stream:Stream.unlink',
                   'thermosteam._stream:Stream.proxy', 'thermosteam._stream:Stream.flow_proxy',
                   'thermosteam.indexer:ChemicalIndexer._copy_without_data', 'thermosteam.indexer:MaterialIndexer._copy_without_data',
@@ -582,6 +606,8 @@ def link(w, cfg):
         if _is_multi(cfg['a']):
             for ph in a.phases: a[ph]
         if cfg.get('eq') == 'loaded': load_eq(a)
+        if cfg.get('read') == 'before':
+            w.ensure('before linking: flows read by (phase, ID) are the flows of each stream', w.And(by_name_ok(w, a), by_name_ok(w, b)))
         pre_a = obs(a)
         sel = dict(zip(('flow', 'phase', 'TP'), cfg['flags']))
         try:
@@ -754,7 +780,7 @@ def stream_configs(tier):
     return out
 
 
-@group('C13/stream_init_pickle', configs=stream_configs, assumptions=['A-pickle'],
+@group('C13/stream_init_pickle', configs=stream_configs, assumptions=['A-pickle', 'A-eq-writes'],
        functions=['thermosteam._stream:Stream.__init__', 'thermosteam._multi_stream:MultiStream.__init__',
                   'thermosteam._stream:Stream.from_data', 'thermosteam._stream:Stream.__reduce__',
                   'thermosteam._stream:Stream.get_data', 'thermosteam._stream:Stream.set_data', 'thermosteam._stream:StreamData',
@@ -1138,7 +1164,7 @@ def seq_configs(tier):
     return out
 
 
-@group('C13/sequences', configs=seq_configs,
+@group('C13/sequences', configs=seq_configs, assumptions=['A-eq-writes'],
        functions=['thermosteam._stream:Stream.link_with', 'thermosteam._stream:Stream.unlink', 'thermosteam._stream:Stream.proxy',
                   'thermosteam._stream:Stream.flow_proxy', 'thermosteam._stream:Stream.copy', 'thermosteam._stream:Stream.copy_like',
                   'thermosteam._multi_stream:MultiStream.copy_like'])
